@@ -12,13 +12,14 @@ TRACT_PARSE_KW = ["clean_qq", "suppress_lot_divs", "qq_depth_min", "qq_depth_max
 
 ENTRIES = ["init", "init", "init_cfgobj", "parse_kw", "parse_kw_nocommit", "config_then_parse"]
 
-CASE = st.fixed_dictionaries({
+CASE_FIELDS = {
     "text": soup.ANY_TEXT,
     "cfg": configs.config_values(exclude=("wait_to_parse",)),
     "style": configs.STYLE,
     "entry": st.sampled_from(ENTRIES),
     "source": st.sampled_from([None, "doc-17", 42, 0, ""]),
-})
+}
+CASE = st.fixed_dictionaries(CASE_FIELDS)
 
 
 def make_plss(case, parse_qq=True):
